@@ -43,6 +43,10 @@ def network_case(ctx, out, desc):
     if np.linalg.cond(na.nodal_analysis_coefficient_matrix(net)) > 1e8:
         out.skip('ill_conditioned'); return
     out.nontrivial(('net', gen_net.shape(desc)))
+    if not all(np.isfinite(list(pot.values()) + list(v.values()) + list(i.values()) + list(p.values()))):
+        out.spec_fail(dict(level='network', symptom='non_finite', kinds=sorted({d['kind'] for d in desc['branches']})),
+                      'non-finite reported value on a well-posed network', gen_net.pretty(desc), impl=dict(i=str(i), p=str(p)), desc=desc)
+        return
     rep = dict(pot={k: core.qc(x) for k, x in pot.items()}, v={k: core.qc(x) for k, x in v.items()},
                i={k: core.qc(x) for k, x in i.items()}, p={k: core.qc(x) for k, x in p.items()})
     r = drv.call('spec_power', net=jnet, report=rep)
